@@ -306,3 +306,30 @@ pub fn gen_corpus(ctx: &Ctx, args: &[String]) -> i32 {
     println!("wrote seed corpus to {}", dir.display());
     0
 }
+
+/// Diagnostic: well-formed sprite of n layers x n frames with one 1x1 cel per frame on the last layer;
+/// prints peak heap vs the C12 bound (run in a fresh process).
+pub fn memprobe(_ctx: &Ctx, args: &[String]) -> i32 {
+    use crate::model::*;
+    let n: usize = args.first().and_then(|x| x.parse().ok()).unwrap_or(1000);
+    let mut sp = Sprite::blank(1, 1, Fmt::Rgba, n);
+    for i in 0..n {
+        let mut l = LayerM::image("");
+        l.opacity = (i % 256) as u8;
+        sp.layers.push(l);
+    }
+    for f in 0..n {
+        sp.cels.insert((f as u16, (n - 1) as u16), CelM { x: 0, y: 0, opacity: 255, content: CelContentM::Image { w: 1, h: 1, pixels: vec![1, 2, 3, 4] }, ud: None });
+    }
+    let mut v = crate::program::Variation::none();
+    v.default_storage = Storage::Raw;
+    let mut rng = crate::rng::Rng::new(1);
+    let bytes = crate::encode::encode(&crate::program::compile(&sp, &mut rng, &v)).0;
+    drop(sp);
+    let bound = mem_bound(bytes.len());
+    crate::allocmon::arm(u64::MAX, -1);
+    let r = crate::util::load(&bytes).map(|a| a.num_layers());
+    let st = crate::allocmon::disarm();
+    println!("n={} input={} bytes result={:?} peak={} largest={} bound={} ratio={:.3}", n, bytes.len(), r.map_err(|e| e.to_string()), st.peak, st.largest, bound, st.peak as f64 / bound as f64);
+    0
+}
